@@ -207,7 +207,11 @@ def gen_device(rng, n_terminals=2, n_holes=0, probes=2, size="small", film_kind=
             t["name"] = names[k]
             spec["terminals"].append(t)
     if probes:
-        pts = [[-0.3 * W, 0.02 * H], [0.3 * W, -0.03 * H], [0.02 * W, 0.3 * H]][:probes]
+        if film_kind == "L":
+            pts = [[-0.38 * W, -0.3 * H], [0.38 * W, -0.32 * H], [-0.33 * W, 0.3 * H]][:probes]
+        else:
+            # clear of the holes (centred within 0.22 W of the middle, radius <= 0.12 W)
+            pts = [[-0.38 * W, 0.02 * H], [0.38 * W, -0.03 * H], [0.02 * W, 0.3 * H]][:probes]
         if ang:
             c, s = math.cos(math.radians(ang)), math.sin(math.radians(ang))
             pts = [[c * x - s * y, s * x + c * y] for x, y in pts]
